@@ -77,17 +77,13 @@ def substModule (σ : Sigma) (m : UModule) : UModule :=
 def Agrees (sc : Scope) (σ : Sigma) : Prop :=
   ∀ n v, σ n = some v → ∃ vr, sc.valueReference n = .ok (some vr) ∧ vr.value = v
 
-/-- integer entries fit `i64` (they were parsed as `i64`) -/
-def SigmaI64 (σ : Sigma) : Prop := ∀ n i, σ n = some (.integer i) → i < 2 ^ 63
-
 /-- `DEFAULT n` on a component whose type is a reference to an ENUMERATED type is looked up among
     the variants first: a name of the table must not also be such a variant (the names are
-    *fresh*), and the lookup of the type must come back -/
+    *fresh*) -/
 def DefaultSafe (sc : Scope) (ty : UTy) (n : String) : Prop :=
   match ty with
   | .typeReference r _ =>
     match sc.resolveTypeRef r with
-    | .error .fuel => False
     | .ok (.enumerated e) => (e.variants.find? fun v => n == v.name) = none
     | _ => True
   | _ => True
